@@ -1,5 +1,6 @@
 """Generic driver: build -> determinism self-test -> fan out seeds -> triage -> shrink -> confirm -> evidence."""
 import concurrent.futures
+import fnmatch
 import glob
 import hashlib
 import json
@@ -164,6 +165,22 @@ class Check:
         with open(cpath, "w") as f:
             json.dump(case, f)
         mpath = os.path.join(workdir, "min-%s.json" % tag)
+        if str(case.get("violation", "")).startswith("race/"):
+            # Race-detector classes are not shrunk: which of several racing access pairs is reported
+            # first depends on the detector's shadow state, i.e. on what ran earlier in the process.
+            # The case (operations + recorded schedule) is replayed in fresh processes instead; the
+            # class reported is the one the fresh replays give.
+            sig = None
+            for k in range(2):
+                o, log = run_proc(exe, env, "replay", os.path.join(workdir, "rp-%s-%d.json" % (tag, k)), {"VERIF_CASE": cpath}, timeout=600, cpu=[1, 16][k])
+                if o is None:
+                    return None, "replay failed: " + str(log)[-2000:]
+                if not str(o.get("violation", "")).startswith("race/"):
+                    return None, "race report does not replay (got %r)" % o.get("violation")
+                if sig is None:
+                    sig, detail = o["violation"], o.get("detail", "")
+            case = dict(case, violation=sig, detail=detail, note="race-detector report; not minimised (see DESIGN.md)")
+            return case, None
         mini, log = run_proc(exe, env, "shrink", mpath, {"VERIF_CASE": cpath, "VERIF_TIER": "quick"}, timeout=900)
         if mini is None:
             return None, "shrink failed: " + str(log)[-2000:]
@@ -184,8 +201,15 @@ class Check:
     def replay_file(self, path, keep=False):
         """check.py <prop> --replay file : rebuild and execute one replay file."""
         with B.Build(self.prop + "-replay", keep=keep) as b:
-            exe, _ = self.build(b, race=False)
+            try:
+                is_race = str(json.load(open(path)).get("violation", "")).startswith("race/")
+            except Exception:
+                is_race = False
+            exe, _ = self.build(b, race=is_race)
             env = b.run_env(self.cfg.get("env"))
+            if is_race:
+                env = dict(env, GORACE="halt_on_error=0 exitcode=0 log_path=" + os.path.join(b.dir, "race"),
+                           VERIF_RACELOG=os.path.join(b.dir, "race"))
             o, log = run_proc(exe, env, "replay", os.path.join(b.dir, "replay-out.json"), {"VERIF_CASE": os.path.abspath(path)}, timeout=900)
             if o is None:
                 print("replay failed:", log)
@@ -227,6 +251,9 @@ class Check:
                 print("HARNESS-ERROR build:", ex)
                 return 2
             env = b.run_env(cfg.get("env"))
+            race_env = dict(env, GORACE="halt_on_error=0 exitcode=0 log_path=" + os.path.join(b.dir, "race"),
+                            VERIF_RACELOG=os.path.join(b.dir, "race"))
+            envs = {plain_exe: env, race_exe: race_env}
             main_exe = plain_exe or race_exe
             total = None
             if cfg.get("enumerated"):
@@ -248,7 +275,7 @@ class Check:
             race_self = None
             if race_exe and not problems:
                 lp = os.path.join(b.dir, "raceself")
-                o, log = run_proc(race_exe, env, "raceself", os.path.join(b.dir, "raceself.json"), {"GORACE": "halt_on_error=0 exitcode=0 log_path=" + lp}, timeout=120)
+                o, log = run_proc(race_exe, env, "raceself", os.path.join(b.dir, "raceself.json"), {"GORACE": "halt_on_error=0 exitcode=0 log_path=" + lp, "VERIF_RACELOG": lp}, timeout=120)
                 txt = "".join(open(p, errors="replace").read() for p in glob.glob(lp + ".*"))
                 race_self = {"racy_fixture_reported": "raceFixtureRacy" in txt, "guarded_fixture_silent": "raceFixtureClean" not in txt}
                 if not (race_self["racy_fixture_reported"] and race_self["guarded_fixture_silent"]):
@@ -260,11 +287,11 @@ class Check:
                     batches.append(("plain", plain_exe, tc["runs"], tc.get("per_proc", 200), tc.get("budget_s", 600), None))
                 if race_exe:
                     rc = cfg.get("race_thorough" if thorough else "race_quick", {"runs": 100, "per_proc": 25})
-                    batches.append(("race", race_exe, rc["runs"], rc.get("per_proc", 25), rc.get("budget_s", tc.get("budget_s", 600)), {"GORACE": "halt_on_error=0 exitcode=0 log_path=" + os.path.join(b.dir, "race")}))
+                    batches.append(("race", race_exe, rc["runs"], rc.get("per_proc", 25), rc.get("budget_s", tc.get("budget_s", 600)), None))
                 for name, exe, runs, per_proc, budget, extra in batches:
                     # different base seed for the race batch so that it adds schedules
                     bs = seed if name == "plain" else seed + 7919
-                    results, errs = self.fan_out(exe, env, bs, runs, per_proc, tier, budget, extra_env=extra)
+                    results, errs = self.fan_out(exe, envs[exe], bs, runs, per_proc, tier, budget, extra_env=extra)
                     problems += errs
                     for r in results:
                         agg["runs"] += r.get("runs", 0)
@@ -284,23 +311,28 @@ class Check:
                         for v in r.get("violations") or []:
                             cand.append((name, exe, v))
                     if name == "race":
+                        # reports are attributed to individual runs inside the test binary (simrun/race.go)
+                        # and arrive as ordinary violations of class race/<frames>; this is only a count
                         race_info = self.collect_race_reports(b.dir)
-                        if race_info["reports"]:
-                            for sig, text in race_info["by_sig"].items():
-                                cand.append(("race-report", exe, {"violation": "race/" + sig, "detail": text, "race_report": True}))
             # 3. corpus of committed replay files (regressions)
             corpus = sorted(glob.glob(os.path.join(VERIF, "replays", "corpus", self.prop + "-*.json")))
             corpus_run = 0
             if not problems and main_exe:
                 for path in corpus:
-                    o, log = run_proc(main_exe, env, "replay", os.path.join(b.dir, "corpus-out.json"), {"VERIF_CASE": path}, timeout=300)
+                    cexe = main_exe
+                    try:
+                        if str(json.load(open(path)).get("violation", "")).startswith("race/") and race_exe:
+                            cexe = race_exe
+                    except Exception:
+                        pass
+                    o, log = run_proc(cexe, envs[cexe], "replay", os.path.join(b.dir, "corpus-out.json"), {"VERIF_CASE": path}, timeout=300)
                     corpus_run += 1
                     if o is None:
                         problems.append("corpus replay %s failed: %s" % (path, str(log)[-500:]))
                     elif o.get("violation"):
                         case = json.load(open(path))
                         case["violation"], case["detail"] = o["violation"], o.get("detail", "")
-                        cand.append(("corpus", main_exe, case))
+                        cand.append(("corpus", cexe, case))
             # 4. triage: group by class signature, shrink + confirm one per class
             by_sig = {}
             for name, exe, v in cand:
@@ -308,25 +340,16 @@ class Check:
             os.makedirs(os.path.join(VERIF, "replays"), exist_ok=True)
             for sig, lst in sorted(by_sig.items()):
                 name, exe, v = lst[0]
-                if v.get("race_report"):
-                    path = os.path.join(VERIF, "replays", "%s-race-%s.json" % (self.prop, hashlib.sha1(sig.encode()).hexdigest()[:10]))
-                    json.dump(v, open(path, "w"), indent=1)
-                    kf = [k for k in known if k[0] == sig]
-                    if kf:
-                        known_hits[sig] = kf[0][1]
-                    else:
-                        violations.append((sig, path, v.get("detail", "")[:400]))
-                    continue
                 mini = err = None
                 for (nm, ex, vv) in lst[:3]:
-                    mini, err = self.confirm(ex, env, vv, b.dir, hashlib.sha1((sig + str(vv.get("seed"))).encode()).hexdigest()[:8])
+                    mini, err = self.confirm(ex, envs[ex], vv, b.dir, hashlib.sha1((str(sig) + str(vv.get("seed"))).encode()).hexdigest()[:8])
                     if mini is not None:
                         break
                 if mini is None:
                     problems.append("violation class %s seen (%d runs) but could not be confirmed: %s" % (sig, len(lst), err))
                     continue
                 msig = mini.get("violation")
-                kf = [k for k in known if k[0] == msig]
+                kf = [k for k in known if fnmatch.fnmatchcase(str(msig), k[0])]
                 if kf:
                     known_hits[msig] = kf[0][1]
                     continue
